@@ -5,12 +5,15 @@ import (
 	"fmt"
 	"math/rand/v2"
 
+	kbls "github.com/kilic/bls12-381"
+	blsu "github.com/protolambda/bls12-381-util"
 	"github.com/protolambda/zrnt/eth2/beacon/common"
 	"github.com/protolambda/zrnt/eth2/configs"
 	"github.com/protolambda/ztyp/view"
 
 	"verif/fw"
 	"verif/refspec"
+	"verif/refssz"
 	"verif/sim"
 )
 
@@ -326,3 +329,12 @@ func runChain(b *fw.B, sc scenario, hooks chainHooks, report func(m *sim.Mismatc
 	}
 	return true
 }
+
+func diffStates(sp *refspec.Spec, fork int, refBytes, zBytes []byte) []string {
+	return refssz.DiffBytes(sp.S.State[fork], refBytes, zBytes, 8)
+}
+
+// the G2 generator, which zrnt's KickStartState puts into its synthetic deposits
+var kickstartPlaceholderSig = func() [96]byte {
+	return (*blsu.Signature)(kbls.NewG2().One()).Serialize()
+}()
